@@ -36,6 +36,8 @@ class SrtParagraph:
   """SRT paragraph definition class"""
 
   _EOL_SEQ_RE = re.compile(r"\n{2,}")
+  # a carriage return in the text is a line terminator for SRT readers
+  _LINE_BREAK_RE = re.compile(r"\r\n|\r|\n")
 
   def __init__(self, identifier: int):
     self._id: int = identifier
@@ -72,7 +74,7 @@ class SrtParagraph:
     """Remove line breaks at the beginning and end of the paragraph, and replace
     line break sequences with a single line break. Lines that contain only white space
     are removed too, since SRT readers take them for the end of the subtitle."""
-    self._text = "\n".join(line for line in self._text.split("\n") if line.strip() != "")
+    self._text = "\n".join(line for line in self._LINE_BREAK_RE.split(self._text) if line.strip() != "")
 
   def append_text(self, text: str):
     """Appends text to the paragraph"""
